@@ -38,6 +38,9 @@ pub enum WMsg {
     Init { known: bool, parts: Vec<PartSpec> },
     Sync { parts: Vec<PartSpec> },
     Abort { reason: u8 },
+    /// a Sync message carrying one entry whose key has this many bytes (messages of tens of
+    /// kilobytes to tens of megabytes: well below the frame size limit, far above the usual size)
+    Big { len: u32 },
 }
 
 #[derive(Serialize, Deserialize, Clone, Debug)]
@@ -82,6 +85,12 @@ fn to_wire(m: &WMsg) -> WireMessage {
     match m {
         WMsg::Init { known, parts } => WireMessage::Init { namespace: if *known { w.doc_id(0) } else { w.doc_id(2) }, message: real_msg(parts) },
         WMsg::Sync { parts } => WireMessage::Sync(real_msg(parts)),
+        WMsg::Big { len } => {
+            let key = vec![b'k'; *len as usize];
+            let e = SignedEntry::from_parts(&w.docs[0], &w.authors[0], &key, iroh_docs::Record::new(crate::world::content(1).0, 1, 7));
+            let x = iroh_docs::sync::RecordIdentifier::new(w.doc_id(0), w.author_id(0), b"k");
+            WireMessage::Sync(MMessage { parts: vec![MPart::RangeItem(MRangeItem { range: MRange { x: x.clone(), y: x }, values: vec![(e, iroh_docs::ContentStatus::Missing)], have_local: false })] }.to_real())
+        }
         WMsg::Abort { reason } => WireMessage::Abort {
             reason: match reason % 3 {
                 0 => iroh_docs::net::AbortReason::NotFound,
@@ -126,12 +135,21 @@ impl Scenario for Wire {
                 _ => WMsg::Sync { parts: gen_parts(rng, &g) },
             })
             .collect();
-        let mode = rng.below(10);
+        let mut mode = rng.below(10);
+        let mut msgs = msgs;
+        // rarely: one very large message among the others, on an undamaged stream
+        let big = rng.chance(1, 2500);
+        if big {
+            let len = *rng.pick(&[70_000u32, 70_000, (1 << 20) + 5, (1 << 20) + 5, (4 << 20) + 5, (16 << 20) + 5, (16 << 20) + 5, (24 << 20) + 5]);
+            let at = rng.usize_below(msgs.len() + 1);
+            msgs.insert(at, WMsg::Big { len });
+            mode = 9;
+        }
         WirePlan {
             seed: rng.next_u64(),
             msgs,
-            chunks: (0..rng.urange(1, 4)).map(|_| *rng.pick(&[1usize, 1, 2, 3, 4, 5, 7, 13, 64, 1000])).collect(),
-            read_chunk: *rng.pick(&[1usize, 2, 5, 4096]),
+            chunks: if big { vec![*rng.pick(&[1usize << 16, 1 << 20, 1 << 22])] } else { (0..rng.urange(1, 4)).map(|_| *rng.pick(&[1usize, 1, 2, 3, 4, 5, 7, 13, 64, 1000])).collect() },
+            read_chunk: if big { *rng.pick(&[4096usize, 1 << 16]) } else { *rng.pick(&[1usize, 2, 5, 4096]) },
             cut: if mode == 0 || mode == 1 { Some(rng.urange(0, 700)) } else { None },
             corrupt: if mode == 2 || mode == 3 { Some((rng.urange(0, 700), 1 << rng.below(8))) } else { None },
             oversize_at: if mode == 4 { Some(rng.usize_below(n)) } else { None },
@@ -168,13 +186,17 @@ impl Scenario for Wire {
     }
 
     fn rule(&self) -> String {
-        "A run frames 1-4 protocol messages (Init/Sync with fingerprint and item parts over the biased alphabet, Abort) with the real codec into one stream and feeds it to the real frame reader in release sizes 1-1000 and read chunks 1-4096; modes: clean (decoded sequence must equal the input), truncated after 0-700 bytes (prefix then end or error, never an extra message), one byte corrupted (value or error, no panic), oversized length prefix (error). Non-trivial: chunking split a frame, or a truncation/corruption/oversize fault fired.".into()
+        "A run frames 1-4 protocol messages (Init/Sync with fingerprint and item parts over the biased alphabet, Abort) with the real codec into one stream and feeds it to the real frame reader in release sizes 1-1000 and read chunks 1-4096; modes: clean (decoded sequence must equal the input; one run in 2500 adds a message of 70 KB - 24 MiB, released and read in large pieces), truncated after 0-700 bytes (prefix then end or error, never an extra message), one byte corrupted (value or error, no panic), oversized length prefix (error). Non-trivial: chunking split a frame, or a truncation/corruption/oversize fault fired.".into()
     }
 }
 
 async fn run_wire(plan: &WirePlan, cx: &mut Cx) -> Res {
     let mut frames: Vec<Vec<u8>> = Vec::new();
     for m in &plan.msgs {
+        if let WMsg::Big { len } = m {
+            cx.fault("very_large_message");
+            cx.probe(if *len > 16 << 20 { "message_over_16_MiB" } else if *len > 1 << 20 { "message_over_1_MiB" } else { "message_over_64_KiB" });
+        }
         frames.push(encode(to_wire(m)).await?);
     }
     let mut stream: Vec<u8> = Vec::new();
